@@ -100,6 +100,21 @@ def rule_factory(ck):
     # the type key read from the file is 'type'
     o = ck.ob('C18-D1.key', f, "json_dict['type']", f.node)
     (o.ok() if any(isinstance(n, ast.Subscript) and const_value(n.slice) == 'type' for n in all_nodes(f)) else o.fail("the class name is not read from the 'type' entry"))
+    # the fields go to from_dict as they were decoded: no entry is replaced, and none decides a branch by its truth value (an observed
+    # statistic of 0, a lowest magnitude of 0.0 and an empty distribution are results, not missing entries)
+    from .common import value_conditions
+    loaded = {a.targets[0].id for a in all_nodes(f) if isinstance(a, ast.Assign) and isinstance(a.targets[0], ast.Name)
+              and isinstance(a.value, ast.Call) and (callee(P, f, a.value) or '') in ('json.load', 'json.loads')}
+    ol = ck.ob('C18-D1.asloaded', f, 'the decoded fields reach from_dict unchanged', f.node)
+    stores = [n for n in all_nodes(f) if isinstance(n, ast.Subscript) and isinstance(n.ctx, (ast.Store, ast.Del)) and isinstance(n.value, ast.Name) and n.value.id in loaded
+              and const_value(n.slice) != 'type']
+    truth = [v for v, n in value_conditions(f) if any(isinstance(x, ast.Name) and x.id in loaded for x in ast.walk(v)) and not (isinstance(v, ast.Name) and v.id in loaded)]
+    if truth:
+        ol.fail('`%s` is used as a condition: a field that holds 0 / 0.0 / [] is taken for a missing one' % u(truth[0])[:60])
+    elif stores:
+        ol.fail('`%s` is overwritten after decoding: the result is built from other values than the file holds' % u(stores[0])[:60])
+    else:
+        ol.ok()
     o = ck.ob('C18-D1.fromdict', f, 'result = factory[type].from_dict(json_dict)', f.node)
     ok = any(isinstance(n, ast.Call) and isinstance(n.func, ast.Attribute) and n.func.attr == 'from_dict' and name in u(n.func.value) for n in all_nodes(f))
     (o.ok() if ok else o.fail('the loaded dictionary is not handed to <class>.from_dict'))
@@ -144,6 +159,12 @@ def rule_fields(ck):
         txt = u(v)
         if p == 'test_distribution':
             good = 'self.test_distribution' in txt and 'self.' not in txt.replace('self.test_distribution', '')
+            # a distribution is written as a sequence whatever its length: one simulation / one synthetic catalog gives one value
+            scal = [a_ for a_ in phi_alternatives(v) if isinstance(strip_shape(a_), ast.Subscript) or
+                    (isinstance(a_, ast.Call) and (call_name(a_) or '').split('.')[-1] in ('item', 'float', 'int', 'squeeze', 'max', 'min', 'sum', 'mean'))]
+            if good and scal:
+                o.fail('the test distribution is written as `%s` on one path: a one-element distribution comes back as a bare number' % u(scal[0])[:60])
+                continue
         else:
             good = txt == 'self.' + p
         (o.ok() if good else o.fail('the key %r is written from `%s`, not from self.%s' % (p, txt[:60], p)))
